@@ -103,6 +103,15 @@ def cmdAggEdit (state ed arg : String) (hintArgs : List String := []) : String :
       | some d => s!"need-idna {hexs d}"
       | none => s!"{dumpAgg a'} shape={if shapeB a' then 1 else 0} wf={if wfOf (abs a') then 1 else 0}"
 
+/-- `get_origin()` on the buffer; "need-idna" when the URL inside a blob URL has a host that only IDNA can answer -/
+def aggOrigin (a : Agg) : String :=
+  let idna0 := mkIdna []
+  let needs : Bool :=
+    getProtocol a == Spec.bBlob ++ [0x3A] && (match Model.ParseAgg.parseNoBaseA idna0 (getPathname a) with
+      | some p => (findMarker idna0 (getHostname p)).isSome
+      | none => false)
+  if needs then "need-idna" else hexs (Model.ParseAgg.getOriginA idna0 a)
+
 def cmdAggShape (state : String) : String :=
   match parseAgg state with
   | none => "bad-state"
@@ -110,7 +119,7 @@ def cmdAggShape (state : String) : String :=
     let l := abs a
     s!"shape={if shapeB a then 1 else 0} wf={if wfOf l then 1 else 0} dashdot={if l.dashdot then 1 else 0} " ++
     s!"getters={hexs (getProtocol a)},{hexs (getUsername a)},{hexs (getPassword a)},{hexs (getHostname a)},{hexs (getPort a)}," ++
-    s!"{hexs (getPathname a)},{hexs (getSearch a)},{hexs (getHash a)}"
+    s!"{hexs (getPathname a)},{hexs (getSearch a)},{hexs (getHash a)} origin={aggOrigin a}"
 
 
 /-- url.model <scheme> <special> <user> <pass> <host|!> <port|-> <path> <query|!> <hash|!> <opq> :
@@ -124,8 +133,15 @@ def cmdUrlModel (a : List String) : String :=
     let c := Model.UrlRec.getComponents r
     let x (o : Option Nat) : String := match o with | some n => toString n | none => "x"
     let viaLayout := (layout (Model.UrlRec.toL r))
+    -- get_origin: a blob URL's origin parses its path; a host there that would need an IDNA answer is reported, not guessed
+    let idna0 := mkIdna []
+    let originNeedsIdna : Bool :=
+      r.scheme == Spec.bBlob && (match Model.ParseSpecial.parseNoBase idna0 r.path with
+        | .ok p => (findMarker idna0 (p.host.getD [])).isSome
+        | .invalid => false)
+    let origin := if originNeedsIdna then "need-idna" else hexs (Model.ParseSpecial.getOriginR idna0 r)
     s!"href={hexs (Model.UrlRec.getHref r)} size={Model.UrlRec.getHrefSize r} comps={c.pe},{c.ue},{c.hs},{c.he},{x c.port},{c.ps},{x c.ss},{x c.hh} " ++
-    s!"layout={hexs viaLayout.buf} shape={if shapeB viaLayout then 1 else 0}"
+    s!"layout={hexs viaLayout.buf} shape={if shapeB viaLayout then 1 else 0} origin={origin}"
   | _ => "bad-op"
 
 /-- url.set <op> <L|-> <ty> <scheme> <special> <user> <pass> <host|!> <port|-> <path> <query|!> <hash|!> <opq> <value> :
